@@ -24,8 +24,8 @@ type C19Param struct {
 
 type C19Scn struct {
 	Params []C19Param `json:"params"`
-	TLS    bool       `json:"tls"`  // the submission names a TLS client profile
-	Ops    []string   `json:"ops"`  // status | statusjson | list | listid | cancel | release | restart
+	TLS    bool       `json:"tls"` // the submission names a TLS client profile
+	Ops    []string   `json:"ops"` // status | statusjson | list | listid | cancel | release | restart
 }
 
 // isSecretKey is the reference reading of "names begin with 'secret_' in any letter case" (ASCII case folding).
